@@ -128,6 +128,7 @@ pub fn explore(spec: &ReaderSpec, vios: &mut Vec<Violation>, stats: &mut SchedSt
     for bound in [1usize, 2] {
         let mut dfs = Dfs::new(0, FaultPolicy::None);
         dfs.preempt_bound = Some(bound);
+        dfs.use_sleep = false;
         let before = vios.len();
         let caps_before = stats.caps_hit;
         explore_with(spec, vios, stats, deadline, dfs)?;
